@@ -13,7 +13,7 @@ sys.path.insert(0, ROOT)
 
 FINDINGS = {
     "C01": "Found `-z^2/2` in `crtbp_energy` / `effective_potential` (3 obligations failed, witness replayed: drift of E along the real field). Fixed `f262c08`.",
-    "C02": "20 order-6 tree conditions failed for `FixedRK(order=6)` (Dormand-Prince 5(4) coefficients under the name RK6). Fixed `a8d6949` with Butcher's 7-stage order-6 tableau (all 37 trees of order <= 6 hold exactly).",
+    "C02": "20 order-6 tree conditions failed for `FixedRK(order=6)` (Dormand-Prince 5(4) coefficients under the name RK6). Fixed `a8d6949` with Butcher's 7-stage order-6 tableau (all 37 trees of order <= 6 hold exactly). The DOP853 drivers multiplied the error norm by |h| a second time (accepted local error tol/h, unbounded multiple over time-rescaled fields): the error-norm call-site obligation on all eight adaptive drivers failed for the four DOP853 ones; fixed `0b65802`.",
     "C03": "`_compute_stm(forward=-1)` flipped only the state block. Fixed `4dd42b2`.",
     "C04": "z3 produced `mu ~ 3.0e-9` for which neither the primary nor the fallback L1/L2 interval brackets the point (`System.from_bodies('mars','deimos')` raised): fixed `984b68c`. The catalogue-exhaustive linear-modes obligation (added after seed C04B) found that L4/L5 `linear_modes` raised for 6 catalogue pairs (default `np.isclose` tolerances): fixed `7550382`.",
     "C05": "Newton / Armijo / wiring obligations hold. The mirror-configuration obligation fails for the vertical family (quarter period reported as half period; controls leave the symmetry set): 2 known findings (section 7 #21).",
@@ -22,16 +22,16 @@ FINDINGS = {
     "C08": "Holds.",
     "C09": "Holds.",
     "C10": "Five defects, all fixed: decreasing grids reached the adaptive drivers (`fdd85c5`), symplectic backward times had the wrong sign (`d4d62d0`), the directed field ignored the time argument (`673a2cd`), the zero-span short cut used a relative tolerance (`6c76749`), the symplectic event time was unsigned (`f3eec09`).",
-    "C11": "Holds on the repaired tree (the drivers' precondition t0 < tmax is established by C10's obligation on `integrate`).",
+    "C11": "Drivers and refiners hold (the drivers' precondition t0 < tmax is established by C10's obligation on `integrate`). The plane-crossing wrapper of orbit correction searched along the forward flow when asked for the backward one: fixed `0be35f1`.",
     "C12": "The stable branch decomposed the backward-flow STM: fixed `3fafa2d`. Seed C12A (eigenpair re-ordering) is invisible to every contract obligation under A1 and is caught only by the thorough tier's bounded native witness.",
     "C13": "The driver kept generating after a member left the target interval. Fixed `5e04c63`.",
     "C14": "`to_domain` used `states[:, :2]` for every section: fixed `58ffaaa`. `_detect_crossing` used a direction test that is meaningless on p-sections: fixed `0cd5943` (section 7 #25).",
-    "C15": "`_hermite_der` was not the derivative of `_hermite_scalar`. Fixed `1667ebb`. Boundary case reported, not a violation of the statement: the last sample is never tested for 'on surface'.",
+    "C15": "`_hermite_der` was not the derivative of `_hermite_scalar`. Fixed `1667ebb`. Boundary case reported, not a violation of the statement: the last sample is never tested for 'on surface'. Request histories on the synodic map service: a `direction=None` request after a directed one ran with the old direction: fixed `2a82a24`.",
     "C16": "Yoshida condition fails for orders 4, 6, 8 (`order+1` in the exponent). The one-token repair breaks the pinned `test_symplectic.py::test_final_state_error`, so it is a known finding (3 value-specific keys), not a fix.",
     "C17": "Relational and identity obligations hold. The bounded native witness fails: `_HamiltonianSystem.rhs` cannot be lowered by numba (typed-list closure) - known finding.",
     "C18": "Two registry edges raised NameError. Fixed `1407b85`.",
     "C19": "KKT minimality failed exactly on `den == 0` (parallel / degenerate segments). Fixed `124537f`. z3's own counter-model is replayed on the real function.",
-    "C20": "Six defects, five fixed: dict values dropped from keys (`6cb7b65`), `scale_factor` key without its arguments (`d36bcc0`), orbit-derived caches that ignored the orbit's state (`19e94cf`), latest-result attributes not updated on cache hits / stale data after a correction with unchanged period (`1f379c0`), cached centre manifold handed out under a degree it no longer has (`988aafb`); save/load of service options: known finding (thorough tier).",
+    "C20": "Eleven defects, ten fixed: dict values dropped from keys (`6cb7b65`), `scale_factor` key without its arguments (`d36bcc0`), orbit-derived caches that ignored the orbit's state (`19e94cf`), latest-result attributes not updated on cache hits / stale data after a correction with unchanged period (`1f379c0`), cached centre manifold handed out under a degree it no longer has (`988aafb`), `correct()` not re-applying the correction on a cache hit (`e0638a7`), `compute_stability` handing out the last request's decomposition (`48a6118`), centre-manifold maps ignoring the degree of the shared manifold (`184ee53`), results surviving a replaced correction / continuation configuration (`7b6201f`); save/load of service options: known finding (thorough tier).",
 }
 
 
